@@ -29,7 +29,12 @@ class ExcelProjectIo(ProjectIoInterface):
         -------
             :class:`Parameters`
         """
-        df = pd.read_excel(file_name, na_values=["None", "none"])
+        df = pd.read_excel(
+            file_name,
+            na_values=["None", "none"],
+            # labels like '1.10' are no numbers
+            dtype={name: str for name in ("label", "Label", "LABEL")},
+        )
         df.columns = [column.lower() for column in df.columns]
         df = df.rename(columns=OPTION_NAMES_DESERIALIZED)
         safe_dataframe_fillna(df, "minimum", -np.inf)
